@@ -94,3 +94,22 @@ var probeReissue = []emitted{
 	hist(cNewTask("title", "A", "state", "done"), cNewTask("title", "B", "state", "canceled"), cPrune(), reuse(cNewTask("title", "C")), reuse(cNewEpic("E")), cListReady()),
 	hist(cNewEpic("E"), cPrune(), reuse(Cmd{"name": "plan", "mode": "json", "doc": map[string]any{"title": "P", "tasks": []any{map[string]any{"title": "x"}}}})),
 }
+
+// whitespace-only agent names are names (C06): the claim must survive replay
+var probeBlankAgents = []emitted{
+	hist(cNewTask("title", "A"), cClaim(" "), cSet("i1", "state", "error"), cSet("i1", "state", "doing")),
+	hist(cNewTask("title", "A"), cClaimID("i1", "\t"), cCompact(), cListReady()),
+	hist(cNewTask("title", "A"), cSet("i1", "claim", "  "), cSet("i1", "state", "blocked"), cSet("i1", "state", "doing")),
+	hist(cNewTask("title", "A", "state", "doing", "claim", "\u00a0"), cCompact()),
+}
+
+// claim order against id order (ids forced): the oldest task has the id that sorts last
+func withID(c Cmd, id string) Cmd { c["forceids"] = []string{id}; return c }
+
+var probeClaimOrder = []emitted{
+	hist(withID(cNewTask("title", "oldest"), "ZZZZZZ"), withID(cNewTask("title", "middle"), "MMMMMM"), withID(cNewTask("title", "youngest"), "AAAAAA"),
+		cListReady(), cCompact(), cClaim("a1"), cClaim("a2"), cClaim("a3")),
+	hist(withID(cNewTask("title", "oldest"), "ZZZZZZ"), withID(cNewTask("title", "younger"), "AAAAAA"), cSet("i1", "body", "edited later"), cClaim("a1"), cClaim("a2")),
+	hist(withID(cNewEpic("E"), "EEEEEE"), withID(cNewTask("title", "oldest", "epic", "i1"), "ZZZZZZ"), withID(cNewTask("title", "younger", "epic", "i1"), "BBBBBB"),
+		withID(cNewTask("title", "outside"), "AAAAAA"), cCompact(), Cmd{"name": "claim", "mode": "json", "agent": "a1", "epic": "i1"}, cClaim("a2")),
+}
